@@ -582,6 +582,8 @@ func randomHistory(rng *rand.Rand, n int, salt uint32, allowZero bool, extremes 
 		}
 		b := rng.Intn(100)
 		switch {
+		case extremes && allowZero && b < 5:
+			nodes[i].Bits = rng.Uint32() // any 32-bit pattern is legal input
 		case allowZero && b < 12:
 			nodes[i].Bits = bitsZero[rng.Intn(len(bitsZero))]
 		case b < 80:
